@@ -28,6 +28,8 @@ def gen_cases(rng, n, tier):
 
 def corpus():
     return [
+        dict(cfg=dict(shape='own', strategy='validity'),
+             prog=[['add', 0, 1, {'a': 1}], ['add', 1, 1, {'a': 1}], ['petto', 1, 1], ['commit'], ['forget'], ['del', 0, 1], ['commit']]),
         dict(cfg=dict(shape='blog', strategy='validity', defaults=True, null_delete=True),
              prog=[['add', 0, 1, {'a': 1, 'b': 2}], ['add', 1, 1, {'a': 1}], ['commit'], ['set', 0, 1, {'b': None}],
                    ['set', 1, 1, {'a': None}], ['commit'], ['del', 0, 1], ['commit']]),
